@@ -211,8 +211,17 @@ theorem validateAndAdjust_ok {c : ChanState} {p : PulseIn} {r : Option Rat} {pr 
       have := validateDuration_ok hc hd
       split at h
       · cases h
-      · injection h with h; subst h
-        exact ⟨⟨this.2.2.2.2, by simp; omega⟩, ⟨fun _ => hw, this.2.1⟩, hw⟩
+      · split at h
+        · cases h
+        · rename_i u2 hv2
+          injection h with h; subst h
+          refine ⟨⟨this.2.2.2.2, by simp; omega⟩, ⟨fun _ => ?_, this.2.1⟩, hw⟩
+          -- the summary kept is that of the pulse as scheduled
+          show WithinLimits c.cfg c.maxW c.sumW (if d ≠ p.dur then p.sumAdj else p.sum)
+          by_cases hdd : d ≠ p.dur
+          · rw [if_pos hdd] at hv2 ⊢
+            exact (validatePulse_iff c p.sumAdj).mp hv2
+          · rw [if_neg hdd]; exact hw
 
 /-- The tail of `_add` once the pulse slot has been appended. -/
 theorem RG_addCore {s : SeqState} (hi : SeqInv s) (p : PulseIn) (n : ChName)
